@@ -3,23 +3,23 @@ From Via Require Import M_Char M_Router P_C16.
 Local Open Scope N_scope.
 
 (* For every table registered through add_method with well-formed patterns (no NUL; every ':'
-   starts a segment) and every target without NUL bytes, handle_request does exactly what the
+   starts a segment) and every target, handle_request does exactly what the
    segment-by-segment specification `dispatch` says: first registered pattern with as many
    segments as the path whose literal segments are equal and whose ':name' segments bind; then
    the method lookup: handler with exactly those bindings / 404 / 405 + sorted Allow list. *)
 Theorem C16_refines : forall regs method target,
-  Forall wf_registration regs -> ~ In 0 target ->
+  Forall wf_registration regs ->
   handle_request (build_table regs) method target = dispatch (build_table regs) method target.
 Proof. exact C16_refines_lemma. Qed.
 
 (* it never throws (the substr in get_route_parameters is always in range) *)
 Theorem C16_never_throws : forall regs method target,
-  Forall wf_registration regs -> ~ In 0 target ->
+  Forall wf_registration regs ->
   handle_request (build_table regs) method target <> DThrow.
 Proof. exact C16_never_throws_lemma. Qed.
 
 (* same statement over any table satisfying the route invariant *)
-Theorem C16_refines_table : forall rs method target, Forall wf_route rs -> ~ In 0 target ->
+Theorem C16_refines_table : forall rs method target, Forall wf_route rs ->
   handle_request rs method target = dispatch rs method target.
 Proof. exact handle_request_is_dispatch. Qed.
 
